@@ -73,6 +73,14 @@ package slip
 //@   after-loop Call rangeindex+1<len(f.Args)
 //@   full-loop rangeindex+1<len(f.Args)
 
+// C08 / C01: evaluating a sub-form caches its compiled version in place only for a list form (a call): a
+// symbol, or any other atom, is evaluated as it stands every time - looked up in the scope chain in force
+// at that evaluation, never replaced by what an earlier evaluation resolved it to.
+//@ func slip.EvalArg
+//@   property C08 C01
+//@   on-call Eval the-form-itself-unless-a-call: $arg0 == args[index] && (is(old(args[index]), List) || $arg0 == old(args[index]))
+//@   on-call ListToFunc only-calls-are-compiled: is(old(args[index]), List) && $arg1 == as(old(args[index]), List)
+
 //@ func slip.DefLambda
 //@   property C01
 //@   ensures fresh-result: fresh(result)
@@ -242,6 +250,12 @@ package slip
 // the same base
 //@   on-call SetString bignum-only-when-it-does-not-fit: err != nil && $arg1 == r.base
 //@   on-call ParseInt machine-parser-first: $arg1 == r.base && $arg2 == 64
+// C03: every character the printer can write after a radix prefix - a sign, the ten digits and the
+// letters a to z that strconv / math/big use for the digits of bases up to 36 (and their capitals) - is
+// accepted by the lexer as part of the number (class a of the intMode table)
+//@   lemma-each c 48 57 radix-digits-are-accepted: intMode[c] == 'a'
+//@   lemma-each c 97 122 radix-letters-are-accepted: intMode[c] == 'a' && intMode[c - 32] == 'a'
+//@   lemma signs-are-accepted: intMode[43] == 'a' && intMode[45] == 'a'
 //@   requires window: 0 <= r.tokenStart && r.tokenStart <= r.pos && r.pos <= len(src)
 //@   ensures cursor-kept: r.tokenStart == old(r.tokenStart) && r.pos == old(r.pos)
 //@   ensures flags-kept: r.more == old(r.more) && r.one == old(r.one)
@@ -450,6 +464,18 @@ package slip
 //@   loop rangeindex: invariant scanned: forall j :: (0 <= j && j <= rangeindex && m.Combinations[j].From != nil) ==> Name(m.Combinations[j].From) != from
 
 // ---------------------------------------------------------------------------
+// C16: = and equal between a single-float and a double-float compare the two values exactly (the single
+// widened, which loses nothing) in both directions: narrowing the double first would make a single equal
+// to doubles it is not equal to, and the answer depend on which side the single is.
+//@ func slip.(SingleFloat).Equal
+//@   property C16
+//@   ensures doubles-in-double-precision: is(other, DoubleFloat) ==> (eq == feq(obj, as(other, DoubleFloat)))
+//@   ensures singles-as-they-are: is(other, SingleFloat) ==> (eq == feq(obj, as(other, SingleFloat)))
+//@ func slip.(DoubleFloat).Equal
+//@   property C16
+//@   ensures singles-in-double-precision: is(other, SingleFloat) ==> (eq == feq(obj, as(other, SingleFloat)))
+//@   ensures doubles-as-they-are: is(other, DoubleFloat) ==> (eq == feq(obj, as(other, DoubleFloat)))
+
 // C16: coerce returns an object of the requested type.
 //@ func slip.coerceToChar
 //@   property C16
@@ -552,6 +578,17 @@ package slip
 // ---------------------------------------------------------------------------
 // C19: load forms. Building a load form reads the object only.
 //@ pure-method LoadFormer.LoadForm
+
+// C19: the load form of a function call keeps every argument that the function does not evaluate (the
+// bindings of let, the clauses of cond / case, the body forms of every special form ...) exactly as it is;
+// whether an argument is evaluated is decided as the evaluator decides it: by the flag at its position or,
+// beyond the declared positions, by the last flag.
+//@ define skipped(f, i) = len(f.SkipEval) > 0 && (i < len(f.SkipEval) ? f.SkipEval[i] : f.SkipEval[len(f.SkipEval) - 1])
+//@ func slip.(*Function).LoadForm
+//@   property C19
+//@   ensures one-element-per-argument: is(result0, List) && len(as(result0, List)) == len(f.Args) + 1
+//@   ensures unevaluated-arguments-kept-as-data: forall j :: (0 <= j && j < len(f.Args) && f.Args[j] != nil && skipped(f, j)) ==> as(result0, List)[j + 1] == f.Args[j]
+//@   loop rangeindex: invariant kept-so-far: len(form) == len(f.Args) + 1 && fresh(form) && (forall j :: (0 <= j && j <= rangeindex && f.Args[j] != nil && skipped(f, j)) ==> form[j + 1] == f.Args[j])
 
 // a (quote x) form
 //@ define quoted(f, x, owner) = is(f, List) && live(as(f, List)) && idof(as(f, List)) != idof(owner) && len(as(f, List)) == 2 && as(f, List)[0] == box(quoteSymbol, Symbol) && as(f, List)[1] == x
